@@ -410,30 +410,81 @@ def rules(chk: Check) -> None:
     chk.touch(f_int.name)
     ci = Ctx(S, f_int)
     gi = CFG(f_int.node)
-    ok_list = False
-    spline_same = False
-    for n_ in own_nodes(f_int.node):
-        if isinstance(n_, ast.Assign) and any(dotted(t) == "self._interpolatedDerivatives" for t in n_.targets):
-            items = list(_elements(ci.resolve(n_.value))) if not (isinstance(n_.value, ast.List) and not n_.value.elts) else []
-            # elements appended to the list afterwards: one unconditional statement each, in program order
-            for q in gi.nodes:
-                if isinstance(q, ast.Expr) and isinstance(q.value, ast.Call) and isinstance(q.value.func, ast.Attribute) and q.value.func.attr in ("append", "extend", "insert") \
-                        and eqx(q.value.func.value, "self._interpolatedDerivatives", ci):
-                    plain = q.value.func.attr == "append" and len(q.value.args) == 1 and not q.value.keywords and gi.must_pass(CFG.ENTRY, CFG.EXIT, lambda z, q=q: z is q) \
-                        and gi.must_pass(CFG.ENTRY, q, lambda z: z is n_)
-                    items.append(q.value.args[0] if plain else None)
-            orders = []
-            for e in items:
-                e = ci.resolve(e) if e is not None else None
-                nu = kwarg(e, "nu", 0) if isinstance(e, ast.Call) else None
-                if isinstance(e, ast.Call) and eqx(e.func, "self._interpolatedFunction.derivative", ci) and isinstance(nu, ast.Constant):
-                    orders.append(nu.value)
-                else:
-                    orders.append(None)
-            ok_list = orders == [1, 2]
-        if isinstance(n_, ast.Assign) and any(dotted(t) == "self._interpolatedFunction" for t in n_.targets):
-            v = ci.resolve(n_.value)
-            spline_same = isinstance(v, ast.Call) and (dotted(v.func) or "").endswith("CubicSpline")
+    FN, DER = "self._interpolatedFunction", "self._interpolatedDerivatives"
+
+    def stores_of(attr):
+        """[(statement, value)] of the stores into self.<attr>: `a, b = x, y` is two assignments (value None: a store that is not decoded)"""
+        out = []
+        for st in own_nodes(f_int.node):
+            if isinstance(st, ast.Assign):
+                for t in st.targets:
+                    if dotted(t) == attr:
+                        out.append((st, st.value))
+                    elif isinstance(t, (ast.Tuple, ast.List)) and any(dotted(x) == attr for x in ast.walk(t)):
+                        v = st.value
+                        if len(st.targets) == 1 and isinstance(v, (ast.Tuple, ast.List)) and len(v.elts) == len(t.elts) \
+                                and not any(isinstance(x, ast.Starred) for x in list(t.elts) + list(v.elts)) and all(dotted(x) == attr or not any(
+                                    dotted(y) == attr for y in ast.walk(x)) for x in t.elts):
+                            out += [(st, vv) for tt, vv in zip(t.elts, v.elts) if dotted(tt) == attr]
+                        else:
+                            out.append((st, None))
+            elif isinstance(st, (ast.AnnAssign, ast.AugAssign)) and dotted(st.target) == attr:
+                out.append((st, st.value if isinstance(st, ast.AnnAssign) else None))
+            elif isinstance(st, (ast.For, ast.AsyncFor, ast.With, ast.AsyncWith, ast.NamedExpr, ast.Delete)):
+                tg = [st.target] if isinstance(st, (ast.For, ast.AsyncFor, ast.NamedExpr)) else (
+                    st.targets if isinstance(st, ast.Delete) else [i.optional_vars for i in st.items if i.optional_vars is not None])
+                if any(dotted(x) == attr for t in tg for x in ast.walk(t)):
+                    out.append((st, None))
+        return out
+
+    fn_stores = stores_of(FN)
+    # the value spline may be built into a local first (`spline = CubicSpline(..); self._interpolatedFunction = spline`): that local -- a single-assignment
+    # name, so the same object wherever it is read -- IS the stored spline when the store is the only one and is executed on every path
+    defs_i = ci.local_defs()
+    locals_of_spline: set = set()
+    if len(fn_stores) == 1 and isinstance(fn_stores[0][1], ast.Name) and fn_stores[0][1].id in defs_i \
+            and gi.must_pass(CFG.ENTRY, CFG.EXIT, lambda z: z is fn_stores[0][0]):
+        x_ = fn_stores[0][1]
+        for _ in range(4):
+            if not (isinstance(x_, ast.Name) and x_.id in defs_i):
+                break
+            locals_of_spline.add(x_.id)
+            x_ = defs_i[x_.id]
+    spline_same = bool(fn_stores) and all(v is not None and isinstance(ci.resolve(v), ast.Call) and (dotted(ci.resolve(v).func) or "").endswith("CubicSpline")
+                                          for _, v in fn_stores)
+
+    def of_value_spline(recv, at) -> bool:
+        """the receiver of .derivative, evaluated in statement `at`, is the spline this call stores in self._interpolatedFunction"""
+        if isinstance(recv, ast.Name) and recv.id in locals_of_spline:
+            return True
+        # read back from the attribute: only after the store (a read in the storing statement itself, or before it, sees the previous spline)
+        return eqx(recv, FN, ci) and bool(fn_stores) and all(st is not at for st, _ in fn_stores) \
+            and gi.must_pass(CFG.ENTRY, at, lambda z: any(z is st for st, _ in fn_stores))
+
+    der_stores = stores_of(DER)
+    ok_list = bool(der_stores)
+    for n_, value in der_stores:
+        if value is None:
+            ok_list = False
+            continue
+        items = [(e, n_) for e in _elements(ci.resolve(value, keep=locals_of_spline))] if not (isinstance(value, ast.List) and not value.elts) else []
+        # elements appended to the list afterwards: one unconditional statement each, in program order
+        for q in gi.nodes:
+            if isinstance(q, ast.Expr) and isinstance(q.value, ast.Call) and isinstance(q.value.func, ast.Attribute) and q.value.func.attr in ("append", "extend", "insert") \
+                    and eqx(q.value.func.value, DER, ci):
+                plain = q.value.func.attr == "append" and len(q.value.args) == 1 and not q.value.keywords and gi.must_pass(CFG.ENTRY, CFG.EXIT, lambda z, q=q: z is q) \
+                    and gi.must_pass(CFG.ENTRY, q, lambda z: z is n_)
+                items.append((q.value.args[0] if plain else None, q))
+        orders = []
+        for e, at in items:
+            e = ci.resolve(e, keep=locals_of_spline) if e is not None else None
+            nu = kwarg(e, "nu", 0) if isinstance(e, ast.Call) else None
+            if isinstance(e, ast.Call) and isinstance(e.func, ast.Attribute) and e.func.attr == "derivative" and of_value_spline(e.func.value, at) \
+                    and isinstance(nu, ast.Constant) and type(nu.value) is int:
+                orders.append(nu.value)
+            else:
+                orders.append(None)
+        ok_list = ok_list and orders == [1, 2]
     chk.ob("R10.5", f_int.where(), "_interpolatedDerivatives == [spline.derivative(1), spline.derivative(2)] of the value spline",
            ok_list and spline_same, key="spline|derivlist")
     f_der = S.func("interpolatableFunction:InterpolatableFunction.derivative")
